@@ -137,3 +137,6 @@ Proof.
     + constructor; [apply firstn_length_le; exact Hge|exact Hall].
     + cbn [concat]. rewrite Hcat. apply firstn_skipn.
 Qed.
+
+Lemma match_nonempty {A B} (l : list A) (a b : B) : l <> [] -> match l with [] => a | _ :: _ => b end = b.
+Proof. destruct l; [congruence|reflexivity]. Qed.
